@@ -128,6 +128,10 @@ trait Payload: Serialize + DeserializeOwned + Debug + Send + Sync + Sized + 'sta
     fn vkey(&self) -> String {
         format!("{:?}", self)
     }
+    /// Class of a value that came back different (computed from the two values).
+    fn mismatch_class(&self, _o: &Self) -> &'static str {
+        "roundtrip-mismatch"
+    }
     /// The small exhaustive value set enumerated for this payload type.
     fn menu() -> Vec<Self>;
 }
@@ -137,6 +141,7 @@ impl<T: Payload> Cur for OpaqueCursor<T> {
     fn same(a: &Self, b: &Self) -> bool { a.0.same(&b.0) }
     fn show(a: &Self) -> J { json!(format!("{:?}", a.0)) }
     fn vkey(a: &Self) -> String { a.0.vkey() }
+    fn mismatch_class(a: &Self, b: &Self) -> &'static str { a.0.mismatch_class(&b.0) }
     fn encode_class(s: &str) -> Option<&'static str> {
         // base64 of any JSON text is non-empty; "" is what `unwrap_or_default()` leaves after a
         // serialization error
@@ -316,6 +321,15 @@ impl Payload for f64 {
     fn tname() -> &'static str { "f64" }
     fn same(&self, o: &Self) -> bool { self.to_bits() == o.to_bits() }
     fn vkey(&self) -> String { <f64 as Cur>::vkey(self) }
+    fn mismatch_class(&self, o: &Self) -> &'static str {
+        // distance in units in the last place, taken from the two bit patterns
+        let same_sign = self.is_sign_negative() == o.is_sign_negative();
+        if self.is_finite() && o.is_finite() && same_sign && (self.to_bits() as i128 - o.to_bits() as i128).abs() <= 2 {
+            "float-off-by-ulp"
+        } else {
+            "roundtrip-mismatch"
+        }
+    }
     fn menu() -> Vec<Self> { f64_menu() }
 }
 impl Payload for f32 {
